@@ -55,7 +55,12 @@ ASSUMPTIONS = [
     "a driver timeout or a run that dies is inconclusive",
 ]
 
-SUTS_DECIDING_REEXEC = ["tri", "strings", "containers", "colors", "queue_", "printer", "lastcall", "floats", "looper"]
+# tickets: values differ between two executions in one process, but never coincide (strictly increasing serials, attribute
+# names used once), so every assertion the filtering pass has to remove is removed after ONE filtering execution and the
+# final re-execution is decisive
+SUTS_DECIDING_REEXEC = ["tri", "strings", "containers", "colors", "queue_", "printer", "lastcall", "floats", "looper", "tickets"]
+FILTER_CLASSES = ["stmt:failed+error", "stmt:failed+error+holding", "stmt:failed-only", "stmt:error-only",
+                  "test:failed-only-and-error-only-statements", "test:mixed-statement-plus-others"]
 LOOPER = '''"""A loop that a mutant can turn into a non-terminating one."""
 
 
@@ -93,6 +98,7 @@ def floors(tier):
             "real-run": 20 * k, "real-run:minimization-on": 8 * k, "real-run:minimization-off": 6 * k,
             "real-run:first-order": 4 * k, "real-run:capped-reordered": 3 if k == 1 else 12, "real-run:hom": 4 * k,
             "real-run:SIMPLE": 2,
+            **{f"filter:{g}:{c}": 3 for g in ("SIMPLE", "MUTATION_ANALYSIS") for c in FILTER_CLASSES},
             "real-score": 16 * k, "kill-preserved:real": 200 * k, "reexec:test": 80 * k, "reexec:assertion": 150 * k,
         },
         "hom_strategies_min": 2,
@@ -171,6 +177,14 @@ def directed_runs():
     add("tri", "DYNAMOSA", 67, 6, gen="SIMPLE", filter_assertions_in_subprocess=False)
     add("queue_", "MOSA", 71, 6, gen="SIMPLE")
     add("containers", "WHOLE_SUITE", 73, 5, gen="SIMPLE", filter_assertions_in_subprocess=False)
+    # state that differs between executions: in the filtering execution one statement has failing AND erroring assertions
+    # (Ticket: serial fails, slot_<n> raises AttributeError), others only failing (next_id) / only erroring (Ghost)
+    add("tickets", "DYNAMOSA", 79, 6, gen="SIMPLE", filter_assertions_in_subprocess=False)
+    add("tickets", "MOSA", 83, 6, gen="SIMPLE", filter_assertions_in_subprocess=False)
+    add("tickets", "WHOLE_SUITE", 89, 5, gen="SIMPLE", filter_assertions_in_subprocess=False)
+    add("tickets", "DYNAMOSA", 97, 6, assertion_minimization=True, filter_assertions_in_subprocess=False)
+    add("tickets", "MOSA", 101, 6, assertion_minimization=False, filter_assertions_in_subprocess=False)
+    add("tickets", "DYNAMOSA", 103, 8, assertion_minimization=True, maximum_mutants=20, filter_assertions_in_subprocess=False)
     return runs
 
 
@@ -616,6 +630,14 @@ def run_real(ctx, run, proj, idx, env_extra=None):
         ctx.inconclusive_because(f"{tag}: no re-execution event")
         return
     deciding = run["sut"] in SUTS_DECIDING_REEXEC
+    fl = rx.get("filter") or {}
+    if not fl.get("calls"):
+        ctx.inconclusive_because(f"{tag}: the filtering-pass monitor saw no call")
+        return
+    for c_ in FILTER_CLASSES:
+        if fl.get(c_):
+            ctx.cls(f"filter:{gen}:{c_}", fl[c_])
+    ctx.count("filter:assertions_removed", fl.get("removed", 0))
     for t in rx["tests"]:
         if "harness_error" in t:
             ctx.inconclusive_because(f"{tag}: re-execution failed in the harness: {t['harness_error'][:200]}")
@@ -654,6 +676,7 @@ def prepare_project(ctx):
     from vlib import sut_corpus
 
     proj = sut_corpus.copy_to(ctx.scratch / "proj")
+    sut_corpus.copy_to(proj, names=sut_corpus.STATE_BETWEEN_EXECUTIONS)
     (proj / "looper.py").write_text(LOOPER)
     return proj
 
